@@ -124,10 +124,10 @@ def c08_clone_reset(report, cfg):
                 cell = it.new_cell(v, "hasher")
                 c = it.call_instance(cl, [Ptr(cell, ())])
                 if it.to_bits(c, t) != it.to_bits(v, t):
-                    report.violated("R8.2", ikey + ":clone", "%s::clone does not copy the state bit for bit" % facts.abbrev(t))
+                    report.violated("R8.2", ikey + ":clone", "%s::clone does not copy the state bit for bit" % facts.abbrev(t), graphs=(it.to_bits(c, t), it.to_bits(v, t)))
                     return
                 if it.to_bits(cell.v, t) != it.to_bits(v, t):
-                    report.violated("R8.2", ikey + ":clone", "%s::clone modifies the original" % facts.abbrev(t))
+                    report.violated("R8.2", ikey + ":clone", "%s::clone modifies the original" % facts.abbrev(t), graphs=(it.to_bits(cell.v, t), it.to_bits(v, t)))
                     return
                 it.call_instance(rs, [Ptr(cell, ())])
                 d = it.call_instance(df, [])
@@ -138,7 +138,7 @@ def c08_clone_reset(report, cfg):
                 if got != exp:
                     sup = sorted({n for n, _ in bv.support(got)} - {n for n, _ in bv.support(exp)})
                     report.violated("R8.2", ikey + ":reset", "%s::reset from a state with %d buffered bytes leaves a state different from Default::default()%s"
-                                    % (facts.abbrev(t), p, " - it still depends on the previous state (%s)" % ", ".join(sup[:3]) if sup else ""))
+                                    % (facts.abbrev(t), p, " - it still depends on the previous state (%s)" % ", ".join(sup[:3]) if sup else ""), graphs=(got, exp))
                     return
                 report.ok("R8.2", ikey, sample={"type": facts.abbrev(t), "pos": p} if p == 0 else None)
             engine_guard(go, report, "R8.2", ikey)
@@ -178,9 +178,27 @@ def c08_chunking(report, cfg, only=None):
                             report.ok("R8.3", ikey, sample={"type": facts.abbrev(t), "pos": p, "a": la, "b": lb} if (p, la, lb) == (1, 1, 2 * bb + 3) else None)
                         else:
                             report.violated("R8.3", ikey, "%s: feeding %d then %d bytes from buffer position %d leaves a different state than feeding the %d bytes at once"
-                                            % (facts.abbrev(t), la, lb, p, la + lb))
+                                            % (facts.abbrev(t), la, lb, p, la + lb), graphs=flat_views(s1, s2))
                     engine_guard(go, report, "R8.3", ikey)
     return total
+
+
+def flat_views(a, b):
+    """Flatten two state views into comparable bit tuples (None when their shapes differ: a definite difference)."""
+    def flat(x, out):
+        if isinstance(x, tuple) and x and x[0] == "buffer":
+            out.append(("pos", x[1]))
+            out.extend(x[2])
+        elif isinstance(x, tuple) and (not x or isinstance(x[0], tuple)):
+            for y in x:
+                flat(y, out)
+        else:
+            out.extend(x)
+        return out
+    fa, fb = flat(a, []), flat(b, [])
+    if len(fa) != len(fb) or any(isinstance(x, tuple) != isinstance(y, tuple) or (isinstance(x, tuple) and x != y) for x, y in zip(fa, fb)):
+        return None
+    return tuple(x for x in fa if not isinstance(x, tuple)), tuple(y for y in fb if not isinstance(y, tuple))
 
 
 def state_view(it, v, t):
